@@ -98,7 +98,10 @@ func ciRun(id int, sc *ciScen) {
 		truth := [][]int{}
 		overlap := false
 		seen := map[int]bool{}
+		same := map[ciGroup]bool{}
 		for gi, g := range sc.Groups {
+			dup := same[g] // the same (first, n) twice is one group seen twice, not two overlapping groups
+			same[g] = true
 			for sn := 0; sn < 2; sn++ {
 				p := packets.NewPacket(10, uint32(gi+1), uint32(sn), g.First)
 				d := make([]int16, g.Nch)
@@ -106,7 +109,7 @@ func ciRun(id int, sc *ciScen) {
 				p.SetTimestamp(&packets.PacketTimestamp{T: uint64(1000000 + sn*1000), Rate: 1e8})
 				prod.sample = append(prod.sample, p)
 			}
-			for c := g.First; c < g.First+g.Nch; c++ {
+			for c := g.First; c < g.First+g.Nch && !dup; c++ {
 				if seen[c] {
 					overlap = true
 				}
